@@ -178,3 +178,47 @@ pub fn range_hash_stub(chunks: &[MerkleHash]) -> MerkleHash {
     }
     MerkleHash::from([5, acc, chunks.len() as u64, 1])
 }
+
+// ---- cheap hashing for std HashMap ------------------------------------------------------------------
+// SipHash-1-3 over the 32 key bytes is what makes hashbrown's probe sequence opaque to CBMC's constant
+// propagation.  `RandomState::hash_one` is replaced by a xor/rotate fold of the written bytes (any
+// deterministic hash function is a valid BuildHasher; HashMap's behaviour does not depend on which).
+pub struct XorHasher(pub u64);
+impl std::hash::Hasher for XorHasher {
+    fn write(&mut self, b: &[u8]) {
+        let mut i = 0;
+        while i < b.len() {
+            self.0 = self.0.rotate_left(9) ^ (b[i] as u64);
+            i += 1;
+        }
+    }
+    fn write_u64(&mut self, v: u64) {
+        self.0 = self.0.rotate_left(9) ^ v;
+    }
+    fn write_usize(&mut self, v: usize) {
+        self.0 = self.0.rotate_left(9) ^ (v as u64);
+    }
+    fn finish(&self) -> u64 {
+        self.0
+    }
+}
+/// `DefaultHasher` (SipHash-1-3) replaced by a xor/rotate fold kept in the first word of its state.
+pub fn dh_write_stub(h: &mut std::hash::DefaultHasher, b: &[u8]) {
+    let st = h as *mut std::hash::DefaultHasher as *mut u64;
+    let mut acc = unsafe { *st };
+    // whole 8-byte words first (keys are 32 bytes, length prefixes 8), then the tail
+    let mut i = 0;
+    while i + 8 <= b.len() {
+        let w = u64::from_le_bytes([b[i], b[i + 1], b[i + 2], b[i + 3], b[i + 4], b[i + 5], b[i + 6], b[i + 7]]);
+        acc = acc.rotate_left(9) ^ w;
+        i += 8;
+    }
+    while i < b.len() {
+        acc = acc.rotate_left(9) ^ (b[i] as u64);
+        i += 1;
+    }
+    unsafe { *st = acc };
+}
+pub fn dh_finish_stub(h: &std::hash::DefaultHasher) -> u64 {
+    unsafe { *(h as *const std::hash::DefaultHasher as *const u64) }
+}
